@@ -365,5 +365,162 @@ theorem pairs_convert (cache : Cache) (tgt : String) (txns : List Txn) (h : AllC
   obtain ⟨ht, hp⟩ := (mem_pairsOf txns tp).mp htp
   exact h tp.1 ht tp.2 hp
 
+/-! ## 3. balance report with conversion -/
+
+theorem makeCtx_in (lk : PriceLookup) (txns : List Txn) (tgt : String) (db : List PriceEntry) (hlk : lk ≠ .none) :
+    (makeCtx lk txns (some tgt) db).inCommodity = some tgt := by
+  cases lk <;> simp [makeCtx] at hlk ⊢
+
+theorem convItem_post (cache : Cache) (tgt : String) (t : Txn) (p : Posting) : (convItem cache tgt t p).post = p := by
+  unfold convItem; split <;> rfl
+
+theorem mem_postsOf_of_pair (txns : List Txn) (tp : Txn × Posting) (h : tp ∈ pairsOf txns) :
+    (⟨tp.2.acct, tp.2.comm, tp.2.amount⟩ : BPost) ∈ postsOf txns := by
+  obtain ⟨ht, hp⟩ := (mem_pairsOf txns tp).mp h
+  simp only [postsOf, List.mem_flatMap, List.mem_map]
+  exact ⟨tp.1, ht, tp.2, hp, rfl⟩
+
+/-- `C03.TxnsWF` (scales ≤ 28) is the scale part of `PostsWF (postsOf txns)` -/
+theorem txnsWF_of_postsWF (txns : List Txn) (hwf : C02.PostsWF (postsOf txns)) : C03.TxnsWF txns := by
+  intro t ht p hp
+  exact hwf.scale _ (mem_postsOf_of_pair txns (t, p) ((mem_pairsOf txns (t, p)).mpr ⟨ht, hp⟩))
+
+/-- **converted_wf**: the representation invariants of the posting stream (`PostsWF`: scales ≤ 28, non-empty
+    paths, names determine paths) carry over to the converted stream — conversion keeps every account and an exact
+    product has scale ≤ 28.  So every C02 theorem applies to the converted balance without a new hypothesis. -/
+theorem converted_wf (cache : Cache) (tgt : String) (txns : List Txn) (hwf : C02.PostsWF (postsOf txns))
+    (hall : AllConvert cache tgt txns) :
+    C02.PostsWF ((C03.itemsOf (convStream cache tgt txns)).map itemBPost) := by
+  rw [itemsOf_convStream, List.map_map]
+  have hmem : ∀ x ∈ (pairsOf txns).map (itemBPost ∘ fun tp => convItem cache tgt tp.1 tp.2),
+      x.amount.scale ≤ 28 ∧ ∃ y ∈ postsOf txns, y.acct = x.acct := by
+    intro x hx
+    obtain ⟨tp, htp, rfl⟩ := List.mem_map.mp hx
+    have hy := mem_postsOf_of_pair txns tp htp
+    obtain ⟨c, hc⟩ := pairs_convert cache tgt txns hall tp htp
+    have hs : tp.2.amount.scale ≤ 28 := hwf.scale _ hy
+    refine ⟨(convItem_spec cache tgt tp.1 tp.2 c hc hs).2.2.2, _, hy, ?_⟩
+    simp [itemBPost, convItem_post]
+  refine ⟨fun x hx => (hmem x hx).1, ?_, ?_⟩
+  · intro x hx
+    obtain ⟨y, hy, e⟩ := (hmem x hx).2
+    rw [← e]; exact hwf.nonempty y hy
+  · intro p q ⟨x, hx, hpx⟩ ⟨y, hy, hqy⟩ hn
+    obtain ⟨x', hx', ex⟩ := (hmem x hx).2
+    obtain ⟨y', hy', ey⟩ := (hmem y hy).2
+    exact hwf.namesInj p q ⟨x', hx', by rw [ex]; exact hpx⟩ ⟨y', hy', by rw [ey]; exact hqy⟩ hn
+
+/-- the price cache of the report -/
+abbrev rcache (lk : PriceLookup) (tgt : String) (db : List PriceEntry) (txns : List Txn) : Cache :=
+  (reportCtx lk (some tgt) db txns).cache
+
+/-- what `balanceConv … = .ok b` unfolds to -/
+theorem balanceConv_ok (st : Settings) (sel : BalRow → Bool) (db : List PriceEntry) (txns : List Txn) (tgt : String)
+    (lk : PriceLookup) (hlk : lk ≠ .none) (b : Balance)
+    (h : balanceConv st sel lk (some tgt) db txns = .ok b) :
+    ∃ cps, convertedPosts (reportCtx lk (some tgt) db txns) txns = .ok cps ∧
+      cps = (C03.itemsOf (convStream (rcache lk tgt db txns) tgt txns)).map itemBPost ∧
+      AllConvert (rcache lk tgt db txns) tgt txns ∧ fromIter st sel cps = .ok b := by
+  unfold balanceConv balanceOfConv at h
+  obtain ⟨cps, hcps, hb⟩ := (Outcome.bind_ok _ _ _).mp h
+  obtain ⟨e, hall⟩ := converted_posts _ tgt (makeCtx_in lk txns tgt db hlk) txns cps hcps
+  exact ⟨cps, hcps, e, hall, hb⟩
+
+/-- a key is posted to in the converted stream iff some posting is summed under it -/
+theorem posted_conv_iff (cache : Cache) (tgt : String) (txns : List Txn) (hwf : C02.PostsWF (postsOf txns))
+    (hall : AllConvert cache tgt txns) (k : AKey) :
+    C02.Posted ((C03.itemsOf (convStream cache tgt txns)).map itemBPost) k ↔
+      ∃ tp ∈ pairsOf txns, convKey cache tgt tp = k := by
+  rw [itemsOf_convStream, List.map_map]
+  unfold C02.Posted
+  constructor
+  · rintro ⟨x, hx, hk⟩
+    obtain ⟨tp, htp, rfl⟩ := List.mem_map.mp hx
+    obtain ⟨c, hc⟩ := pairs_convert cache tgt txns hall tp htp
+    have hs : tp.2.amount.scale ≤ 28 := hwf.scale _ (mem_postsOf_of_pair txns tp htp)
+    refine ⟨tp, htp, ?_⟩
+    rw [← hk, ← (convItem_spec cache tgt tp.1 tp.2 c hc hs).2.1]; rfl
+  · rintro ⟨tp, htp, hk⟩
+    obtain ⟨c, hc⟩ := pairs_convert cache tgt txns hall tp htp
+    have hs : tp.2.amount.scale ≤ 28 := hwf.scale _ (mem_postsOf_of_pair txns tp htp)
+    refine ⟨_, List.mem_map.mpr ⟨tp, htp, rfl⟩, ?_⟩
+    rw [← hk, ← (convItem_spec cache tgt tp.1 tp.2 c hc hs).2.1]; rfl
+
+/-- **balance_conv_own_sum**: with conversion on (any lookup type, any price db), for every listed row of the
+    balance report: the own sum is the exact sum of the *converted* amounts of the postings whose *converted* key
+    (report commodity if a rate is applied, else the posting's own commodity; account unchanged) is the row's key
+    — C02 `own_sum` on the converted stream, whose `PostsWF` is discharged from the journal's —, and unfolded with
+    C07: own × 10²⁸ = Σ amount × rate over the converted postings + (Σ amount over the unconverted ones) × 10²⁸,
+    the rate being that of `appliedEntry` (= the documented `RateAt`, see `applied_rateAt`).
+    The tree sum is the same sum over the row's key and everything below it. -/
+theorem balance_conv_own_sum (st : Settings) (sel : BalRow → Bool) (db : List PriceEntry) (txns : List Txn)
+    (tgt : String) (lk : PriceLookup) (hlk : lk ≠ .none) (hwf : C02.PostsWF (postsOf txns)) (b : Balance)
+    (h : balanceConv st sel lk (some tgt) db txns = .ok b) :
+    ∃ cps, convertedPosts (reportCtx lk (some tgt) db txns) txns = .ok cps ∧ C02.PostsWF cps ∧
+      fromIter st sel cps = .ok b ∧
+      ∀ row ∈ b.rows,
+        row.own.units = C02.ownSum cps row.key ∧
+        row.own.units * E28 = valueSum (rcache lk tgt db txns) tgt (pairsOf txns) row.key ∧
+        row.own.units * E28 = ratedSum (rcache lk tgt db txns) tgt (pairsOf txns) row.key
+                                + plainSum (rcache lk tgt db txns) tgt (pairsOf txns) row.key * E28 ∧
+        row.tree.units = C02.treeSum cps row.key := by
+  obtain ⟨cps, hcps, e, hall, hb⟩ := balanceConv_ok st sel db txns tgt lk hlk b h
+  have hwf' : C02.PostsWF cps := by rw [e]; exact converted_wf _ tgt txns hwf hall
+  refine ⟨cps, hcps, hwf', hb, ?_⟩
+  intro row hrow
+  obtain ⟨bal, hbal, hrows⟩ := C13.fromIter_rows st sel cps b hb
+  have hrow' : row ∈ bal := by rw [hrows] at hrow; exact (List.mem_filter.mp hrow).1
+  have hown := C02.own_sum st cps hwf' bal hbal row hrow'
+  have hval : row.own.units * E28 = valueSum (rcache lk tgt db txns) tgt (pairsOf txns) row.key := by
+    rw [hown, e, ownSum_items, itemsOf_convStream]
+    exact keySum_convItems _ tgt row.key (pairsOf txns) (pairs_scale txns (txnsWF_of_postsWF txns hwf))
+      (pairs_convert _ tgt txns hall)
+  refine ⟨hown, hval, ?_, C02.tree_sum_posts st cps hwf' bal hbal row hrow'⟩
+  rw [hval, valueSum_split]
+
+/-- **balance_conv_rows**: the rows of the converted balance are exactly the converted keys of the postings and
+    their proper ancestors, each once, sorted by (commodity, account); the listed ones are those the selector
+    accepts.  In particular no row is left in a source commodity whose postings were all converted. -/
+theorem balance_conv_rows (st : Settings) (sel : BalRow → Bool) (db : List PriceEntry) (txns : List Txn)
+    (tgt : String) (lk : PriceLookup) (hlk : lk ≠ .none) (hwf : C02.PostsWF (postsOf txns)) (b : Balance)
+    (h : balanceConv st sel lk (some tgt) db txns = .ok b) :
+    ∃ cps bal, convertedPosts (reportCtx lk (some tgt) db txns) txns = .ok cps ∧ balance st cps = .ok bal ∧
+      b.rows = bal.filter sel ∧
+      (bal.map (·.key)).Pairwise (fun x y => keyLt x y = true) ∧
+      ∀ k, k ∈ bal.map (·.key) ↔
+        (∃ tp ∈ pairsOf txns, convKey (rcache lk tgt db txns) tgt tp = k) ∨ C02.ProperAncestor cps k := by
+  obtain ⟨cps, hcps, e, hall, hb⟩ := balanceConv_ok st sel db txns tgt lk hlk b h
+  have hwf' : C02.PostsWF cps := by rw [e]; exact converted_wf _ tgt txns hwf hall
+  obtain ⟨bal, hbal, hrows⟩ := C13.fromIter_rows st sel cps b hb
+  obtain ⟨hs, hk⟩ := C02.rows_exact st cps hwf' bal hbal
+  refine ⟨cps, bal, hcps, hbal, hrows, hs, ?_⟩
+  intro k
+  rw [hk k]
+  have := posted_conv_iff (rcache lk tgt db txns) tgt txns hwf hall k
+  rw [← e] at this
+  rw [this]
+
+/-- **applied_rateAt** (C07 `convert_value` in the vocabulary of this file): in the report's price context, for
+    every posting of the report's transactions: no entry is applied to a posting without commodity or already in
+    the report commodity; for any other posting the entry applied is the one the specification `RateAt` names —
+    source → report commodity, greatest instant at or before the transaction's instant (txn-time) / strictly
+    before the given instant (given-time) / overall (last-price) — and none is applied iff there is none. -/
+theorem applied_rateAt (es : List PriceEntry) (txns : List Txn) (tgt : String) (lk : PriceLookup) (hlk : lk ≠ .none)
+    (t : Txn) (ht : t ∈ txns) (p : Posting) (hp : p ∈ t.posts) :
+    ((p.comm = "" ∨ p.comm = tgt) → C07.appliedEntry (rcache lk tgt (loadDb es) txns) tgt t p = none) ∧
+    (p.comm ≠ "" → p.comm ≠ tgt →
+      C07.RateAt (loadDb es) p.comm tgt (C07.lookupPred lk t.header.ts.ns)
+        (C07.appliedEntry (rcache lk tgt (loadDb es) txns) tgt t p)) := by
+  constructor
+  · intro hc
+    rcases hc with hc | hc
+    · simp [C07.appliedEntry, hc]
+    · apply C07.appliedEntry_unused
+      intro hm
+      exact ((C07.mem_usedCommodities txns tgt p.comm).mp hm).1 hc
+  · intro h1 h2
+    exact C07.appliedEntry_spec es txns tgt lk hlk t p h1
+      ((C07.mem_usedCommodities txns tgt p.comm).mpr ⟨h2, t, ht, p, hp, rfl⟩)
+
 end C07b
 end Tackler
